@@ -91,8 +91,14 @@ def cases(rng, tier):
     for gen in (int_cases, ext_cases, float_cases, smallest_cases, column_cases, interval32_cases, decimals_cases, reuse_cases):
         for c in gen(rng, tier):
             rt = c.get("rt")
-            if rt and rt.get("enc") in ("rle", "delta", "pack", "bytes", "compress_int", "compress_float") and rng.random() < 0.35:
-                rt["be"] = True          # same values, big-endian byte order (oracle only; the model has no byte order)
+            if rt and rt.get("enc") in ("rle", "delta", "pack", "bytes", "compress_int", "compress_float"):
+                r = rng.random()
+                if r < 0.3:
+                    rt["be"] = True          # same values, big-endian byte order (oracle only; the model has no byte order)
+                elif r < 0.45:
+                    rt["layout"] = "strided"
+                elif r < 0.6:
+                    rt["layout"] = "readonly"
             yield c
 
 
@@ -498,9 +504,20 @@ def _same_float(a, b):
 
 
 def _maybe_big_endian(arr, rt):
-    """Half of the round-trip cases present the same values as a big-endian array (legal numpy input)."""
+    """Some round-trip cases present the same values in another memory layout: big-endian, a strided view, a read-only
+    array (all legal numpy inputs; the model sees values only)."""
+    import numpy as np
     if rt.get("be") and arr.dtype.kind in "iuf" and arr.dtype.itemsize > 1:
         return arr.astype(arr.dtype.newbyteorder(">"))
+    lay = rt.get("layout")
+    if lay == "strided" and len(arr):
+        wide = np.empty((len(arr), 3), dtype=arr.dtype)
+        wide[:] = 0
+        wide[:, 1] = arr
+        return wide[:, 1]
+    if lay == "readonly":
+        arr = arr.copy()
+        arr.setflags(write=False)
     return arr
 
 
@@ -536,7 +553,10 @@ def oracle(case):
                 arr = np.array(data, dtype=NP[rt["dtype"]])
                 enc = E.ByteArrayEncoding(type=np.dtype(NP[rt["dst"]]))
             arr = _maybe_big_endian(arr, rt)
+            before = arr.copy()
             back = enc.decode(enc.encode(arr))
+            if arr.dtype != before.dtype or not np.array_equal(arr, before):
+                v.append((f"C05/{kind}/argument-modified", f"{rt}: the caller's array was changed to {arr.tolist()[:12]}"))
         except Exception:
             return []          # rejected: allowed by the property
         if len(back) != len(data) or any(int(a) != int(b) for a, b in zip(back, data)):
